@@ -20,7 +20,7 @@ CONFIG = {
                      'OsFs/other backends as layers are covered by the theorems only as far as they behave like the MemMapFs model'],
     'assumptions': ['single fault per run (at_most_one_fault); the layer satisfies layer_sane (parent directory registered, or neither parent nor file present); '
                     'the name is in MemMapFs normal form and is not the root'],
-    'vm_sample': {'quick': 60, 'thorough': 400},
+    'vm_sample': {'quick': 240, 'thorough': 1600},   # one case in four carries a digest (drv_c12.ml)
 }
 
 def _meta(lines):
